@@ -70,11 +70,31 @@ func verifC18CerrOut(e *connect.Error) vsx {
 	return vL(vI(int64(uint32(e.Code()))), vS(e.Message()), vL(ds...))
 }
 
+// the source of a conversion is re-used: detail bytes overwritten in place, a detail appended
+func verifC18ScribbleErr(e *conformancev1.Error) {
+	if e == nil {
+		return
+	}
+	for _, d := range e.Details {
+		for i := range d.Value {
+			d.Value[i] ^= 0xff
+		}
+		d.Value = append(d.Value, '#')
+	}
+	e.Details = append(e.Details, &anypb.Any{TypeUrl: "scribbled", Value: []byte("#")})
+}
+
 func verifC18ErrConnect(args []vsx) vsx {
 	perr := verifC18Perr(args[0])
 	cerr := ConvertProtoToConnectError(perr)
+	// (a Connect error keeps the Any messages it was made of - connect.NewErrorDetail - so it is
+	// looked at and converted before its source is re-used)
+	view := verifC18CerrOut(cerr)
 	back := ConvertConnectToProtoError(cerr)
-	return vL(verifC18CerrOut(cerr), verifC18PerrOut(back))
+	sibling := ConvertConnectToProtoError(cerr)
+	verifC18ScribbleErr(sibling)
+	verifC18ScribbleErr(perr)
+	return vL(view, verifC18PerrOut(back))
 }
 
 type verifC18Wrapper struct {
@@ -97,7 +117,10 @@ func verifC18ErrGo(args []vsx) vsx {
 	default:
 		err = &verifC18Wrapper{text: text, inner: cerr}
 	}
-	return vL(verifC18CerrOut(ConvertErrorToConnectError(err)), verifC18PerrOut(ConvertErrorToProtoError(err)))
+	view := verifC18CerrOut(ConvertErrorToConnectError(err))
+	back := ConvertErrorToProtoError(err)
+	verifC18ScribbleErr(ConvertErrorToProtoError(err))
+	return vL(view, verifC18PerrOut(back))
 }
 
 func verifC18Headers(v vsx) []*conformancev1.Header {
